@@ -97,6 +97,9 @@ pub fn exec_c15(plan: &C15Plan, st: &mut Stats) -> Option<Violation> {
             );
         }
         let (sa, sb) = (snap_last(&a.state), snap_last(&b.state));
+        if oa.is_ok() && sa.is_none() {
+            return viol("no decoded picture after a successful call", what());
+        }
         if sa != sb {
             let d = match (&sa, &sb) {
                 (Some(x), Some(y)) if x.header != y.header => format!("headers differ: {} vs {}", x.header, y.header),
